@@ -270,3 +270,18 @@ def extract_block(path, text, start_anchor, end_anchor, wrapper_head, include_en
     e.rewrites.append("R5 block %r .. %r wrapped in %s" % (start_anchor.strip(), end_anchor.strip(), wrapper_head))
     e.raw_body = body
     return e
+
+
+def file_static_helpers(text, body):
+    """File-scope `static` functions of the same file that the block calls (a refactoring may move statements of the block
+    into such a helper): their verbatim definitions, to be placed in front of the wrapped block."""
+    b = blank(text)
+    out = []
+    for m in re.finditer(r'(?m)^static\s+[\w:<>\s\*&]+?\b(\w+)\s*\(', b):
+        name = m.group(1)
+        if not re.search(r'\b' + re.escape(name) + r'\s*\(', body):
+            continue
+        for d in find_definitions(text, name):
+            if d[0] <= m.start() + 8 and m.start() <= d[1]:
+                out.append((name, text[d[0]:d[3]], text.count('\n', 0, d[0]) + 1))
+    return out
